@@ -6,6 +6,7 @@ package path
 //@ prelude c16 c15
 
 //@ func build(source string, parsed any) PropertyPath
+//@   requires [C17:ast-shape] wfAst(parsed)
 //@   ensures-assumed [C16:A-PURE] result == buildF(source, parsed)
 //@   ensures [C16:iri] is(parsed, path.IRI) ==> (is(result, path.Property) && result.(path.Property).Iri == parsed.(path.IRI).Value && result.(path.Property).Inverse == parsed.(path.IRI).Inverse && result.(path.Property).Transitive == parsed.(path.IRI).Transitive && result.(path.Property).source == source)
 //@   ensures [C16:sequence] is(parsed, path.AND) ==> (is(result, path.AndPath) && result.(path.AndPath).source == source && len(result.(path.AndPath).And) == len(parsed.(path.AND).body) && (forall k int :: 0 <= k && k < len(parsed.(path.AND).body) ==> result.(path.AndPath).And[k] == buildF(source, parsed.(path.AND).body[k])))
@@ -27,3 +28,14 @@ package path
 //@ func (p Property) IsCustom(iriExpander *misc.IriExpander) bool
 //@   requires iriExpander != nil
 //@   ensures [C15:custom-by-namespace-not-by-prefix] result == (expandErrF(mapvals(deref(iriExpander).Context), mapdom(deref(iriExpander).Context), p.Iri) == nil && indexOf(expandF(mapvals(deref(iriExpander).Context), mapdom(deref(iriExpander).Context), p.Iri), contexts.ApiExtensionUri) == 0)
+
+// ---- the generated parser (peg.go) is outside the verifiable subset: assumed facts about it (C17) -------------------------
+
+//@ func newParser(filename string, b []byte, opts ...Option) *parser
+//@   assumed
+//@   ensures [C17:A-PEG] result != nil
+
+//@ func (p *parser) parse(g *grammar) (val any, err error)
+//@   assumed
+//@   ensures [C17:A-PEG] deref(p).pt.offset >= 0
+//@   ensures [C17:A-PEG-AST] result1 == nil ==> wfAst(result0)
